@@ -102,9 +102,9 @@ def initSt (ctx : String) (files : FS) : St × Option Port :=
     ⟨"|pp", 0, false, true, true, true⟩,
     ⟨"|up", 0, true, false, false, pin⟩,
     ⟨"|dn", 0, false, true, true, pout⟩]
-  let p0 : Port := if pin then ⟨3, some 6, .live 3, false, true⟩ else ⟨0, some 0, .closed, false, false⟩
-  let p1 : Port := if pout then ⟨4, some 7, .live 4, false, true⟩ else ⟨1, some 1, .live 1, false, false⟩
-  let p2 : Port := ⟨2, some 2, .live 2, false, false⟩
+  let p0 : Port := if pin then ⟨3, some 6, .live 3, false, true, true⟩ else ⟨0, some 0, .closed, false, false, false⟩
+  let p1 : Port := if pout then ⟨4, some 7, .live 4, false, true, false⟩ else ⟨1, some 1, .live 1, false, false, false⟩
+  let p2 : Port := ⟨2, some 2, .live 2, false, false, false⟩
   let fops : List Fop :=
     if pout then [⟨pin, false⟩, ⟨true, true⟩] else if pin then [⟨true, false⟩] else []
   (⟨[some p0, some p1, some p2], fops, ⟨fs, hs, [], []⟩, 5⟩, if pin then some p0 else none)
